@@ -102,34 +102,71 @@ func c10ptyp(t reflect.Type) uintptr {
 	return uintptr((*[2]unsafe.Pointer)(unsafe.Pointer(&t))[1])
 }
 
-func c10field(v reflect.Value, name string) reflect.Value {
-	f := v.FieldByName(name)
-	if !f.IsValid() {
-		panic("model-tie: " + v.Type().String() + " has no field " + name)
+// The observations below look inside the library's ResourceBank / ReadBuf. Fields are found by what they are, not by
+// what they are called (a rename is not a change of behaviour): the one field of a given type, or the n-th field of a kind.
+func c10fieldOfType(v reflect.Value, what string, ok func(reflect.Type) bool) reflect.Value {
+	var found reflect.Value
+	n := 0
+	for i := 0; i < v.NumField(); i++ {
+		if ok(v.Field(i).Type()) {
+			found = v.Field(i)
+			n++
+		}
 	}
-	return f
+	if n != 1 {
+		panic(fmt.Sprintf("model-tie: %s has %d fields that are %s", v.Type(), n, what))
+	}
+	return found
+}
+
+func c10nthOfKind(v reflect.Value, kinds []reflect.Kind, nth int) reflect.Value {
+	k := 0
+	for i := 0; i < v.NumField(); i++ {
+		for _, want := range kinds {
+			if v.Field(i).Kind() == want {
+				if k == nth {
+					return v.Field(i)
+				}
+				k++
+				break
+			}
+		}
+	}
+	panic(fmt.Sprintf("model-tie: %s has no field number %d of kind %v", v.Type(), nth, kinds))
 }
 
 // the bank a read buffer currently holds
 func c10rbOf(r *avro.ReadBuf) *avro.ResourceBank {
-	f := c10field(reflect.ValueOf(r).Elem(), "rb")
+	f := c10fieldOfType(reflect.ValueOf(r).Elem(), "a *ResourceBank", func(t reflect.Type) bool { return t == reflect.TypeOf((*avro.ResourceBank)(nil)) })
 	return (*avro.ResourceBank)(unsafe.Pointer(f.Pointer()))
 }
 
-// sData of a bank: base pointer, len, cap
+// the string store of a bank (its one []byte field): base pointer, len, cap
 func c10sData(rb *avro.ResourceBank) (uintptr, int, int) {
-	f := c10field(reflect.ValueOf(rb).Elem(), "sData")
+	f := c10fieldOfType(reflect.ValueOf(rb).Elem(), "a []byte", func(t reflect.Type) bool { return t == reflect.TypeOf([]byte(nil)) })
 	return f.Pointer(), f.Len(), f.Cap()
 }
 
-// the arena of a bank for a type: array pointer, cap, len, element size
+var c10intKinds = []reflect.Kind{reflect.Int, reflect.Int64, reflect.Uintptr, reflect.Uint, reflect.Uint64}
+
+// the arena of a bank for a type (the bank's one slice-of-struct field; per element two pointers - type descriptor, memory -
+// and three integers - capacity, used, element size - in that order): array pointer, cap, len, element size
 func c10arena(rb *avro.ResourceBank, t reflect.Type) (uintptr, int, int, int, bool) {
-	ts := c10field(reflect.ValueOf(rb).Elem(), "types")
+	ts := c10fieldOfType(reflect.ValueOf(rb).Elem(), "a slice of structs", func(t reflect.Type) bool {
+		return t.Kind() == reflect.Slice && t.Elem().Kind() == reflect.Struct
+	})
 	want := c10ptyp(t)
+	num := func(v reflect.Value) int {
+		if v.CanInt() {
+			return int(v.Int())
+		}
+		return int(v.Uint())
+	}
+	ptr := []reflect.Kind{reflect.UnsafePointer}
 	for i := 0; i < ts.Len(); i++ {
 		e := ts.Index(i)
-		if c10field(e, "ptyp").Pointer() == want {
-			return c10field(e, "array").Pointer(), int(c10field(e, "cap").Int()), int(c10field(e, "len").Int()), int(c10field(e, "size").Int()), true
+		if c10nthOfKind(e, ptr, 0).Pointer() == want {
+			return c10nthOfKind(e, ptr, 1).Pointer(), num(c10nthOfKind(e, c10intKinds, 0)), num(c10nthOfKind(e, c10intKinds, 1)), num(c10nthOfKind(e, c10intKinds, 2)), true
 		}
 	}
 	return 0, 0, 0, 0, false
